@@ -52,6 +52,7 @@ OPS_REQUIRED = ["sort_tree", "get_subtree", "to_subtree", "cut_tree", "redirect_
                 "TranslateOrigin", "Normalizer",
                 "RadiusReseter", "Transforms"]
 REQUIRED = ["contract_evals_" + o for o in OPS_REQUIRED] + [
+    "compositions_compared_with_their_members",
     "steps_executed", "probe_output_poison", "probe_input_poison", "roundtrip_steps",
     "identity_transform_steps", "same_tree_in_two_argument_positions", "size_sweep_cases",
     "pipelines_starting_from_a_branch_tree", "deep_pruning_cases",
@@ -245,9 +246,24 @@ def draw_op(rng, t, allow_grow=True, force=None):
         return f"IsometricResampler({sp:.4g})", lambda a: T.IsometricResampler(sp)(a), [], None
     if name == "Transforms":
         k = int(rng.integers(1, 4))
-        return (f"Transforms(RotateZ, CutByFurcationOrder({k}), TranslateOrigin)",
-                lambda a: T.Transforms(T.RotateZ(0.2), T.Transforms(T.CutByFurcationOrder(k)),
-                                       T.TranslateOrigin())(a), [], None)
+
+        def composed(a):
+            pipe = T.Transforms(T.RotateZ(0.2), T.Transforms(T.CutByFurcationOrder(k)),
+                                T.TranslateOrigin())
+            out_ = pipe(a)
+            # sequential composition: the wrapper is its members applied one after another
+            # (nested wrappers flattened), also when they are taken out by index
+            step_ = a
+            for i_ in range(len(pipe)):
+                step_ = pipe[i_](step_)
+            COMPOSED[0] += 1
+            if len(pipe) != 3 or fingerprint_cols(step_) != fingerprint_cols(out_) or \
+                    not isinstance(repr(pipe), str):
+                COMPOSED_BAD.append(f"Transforms of {len(pipe)} members differs from its members "
+                                    f"applied one after another")
+            return out_
+
+        return f"Transforms(RotateZ, CutByFurcationOrder({k}), TranslateOrigin)", composed, [], None
     if name == "roundtrip":
         return "swc round trip", lambda a: Tree.from_swc(io.StringIO(a.to_swc())), [], "roundtrip"
     if name == "identity":
@@ -257,6 +273,13 @@ def draw_op(rng, t, allow_grow=True, force=None):
                lambda a: T.TranslateOrigin()(T.TranslateOrigin()(a))]
         return ("identity-transform#" + str(which)), fns[which], [], "identity"
     raise AssertionError(name)
+
+
+COMPOSED, COMPOSED_BAD = [0], []
+
+
+def fingerprint_cols(t):
+    return [(k_, v_.shape, v_.tobytes()) for k_, v_ in sorted(t.ndata.items())]
 
 
 def _run_pipeline(ctx, case):
@@ -429,6 +452,9 @@ def run(ctx):
             ctx.violation("recursion-limit", f"deep chain of {n_deep}: {e}", case)
     for name, v in rec.evals.items():
         ctx.count("contract_evals_" + name, v)
+    ctx.count("compositions_compared_with_their_members", COMPOSED[0])
+    for msg in COMPOSED_BAD[:3]:
+        ctx.violation("composition-differs", msg, {"note": "Transforms(...) step of a pipeline"})
 
 
 def replay(ctx, case):
